@@ -285,8 +285,11 @@ ValidateClauses(s, l) ==
        \cup (IF ev.pyk \in {"int", "intsub"} /\ ev.res \in {"true", "valueerror"} /\ (ev.res = "true") # InRange(kind, ev.n)
              THEN {"V_range"} ELSE {})
 
-\* an attribute of a live object was assigned; ev.o is the abstract object afterwards (a valid one)
-AssignClauses(s, l) == IF s.ev[l].ok THEN {} ELSE {"K_ok"}
+\* an attribute of a live object was assigned; ev.o is the abstract object afterwards
+\* (a valid one in `mutate` sessions; in `lit` sessions the attribute is given a string other than its literal)
+AssignClauses(s, l) == LET ev == s.ev[l]  valid == Valid(Wire(ev.o), RootType(s.root)) IN
+                       (IF valid /\ ~ev.ok THEN {"K_ok"} ELSE {})
+                       \cup (IF ~valid /\ ev.ok THEN {"K_reject"} ELSE {})
 
 Clauses(s, l) == CASE s.ev[l].e = "Structure" -> StructureClauses(s, l)
                    [] s.ev[l].e = "Assign" -> AssignClauses(s, l)
